@@ -236,6 +236,9 @@ func (d *regDriver) Call(ip *absint.Interp, site ssa.CallInstruction, args []abs
 	if cal == nil {
 		return nil, false
 	}
+	if full := cal.String(); strings.HasPrefix(full, "(*sync.Mutex).") || strings.HasPrefix(full, "(*sync.RWMutex).") {
+		return nil, true // histories are sequential: a lock of the registry's own has no effect on them
+	}
 	if d.constructing && cal.Signature.Recv() == nil && cal.Pkg != nil {
 		// the constructor makes its containers: each is a cell
 		if p := cal.Pkg.Pkg.Path(); (p == core.Mod+"/util/sync2" || p == core.Mod+"/util/list") && cal.Signature.Results().Len() == 1 {
@@ -334,6 +337,7 @@ func (d *regDriver) run(name string, args ...absint.Value) absint.Outcome {
 	ip.InScope = d.c.InScope
 	out := ip.Run(fn, append([]absint.Value{d.recv}, args...), nil)
 	d.trans++
+	d.syncMaps()
 	if out.Undecided != nil {
 		panic(out.Undecided)
 	}
@@ -341,6 +345,59 @@ func (d *regDriver) run(name string, args ...absint.Value) absint.Outcome {
 		panic(&absint.Undecided{Msg: name + " panics in the model: " + out.Panic.Msg})
 	}
 	return out
+}
+
+// syncMaps: containers the registry keeps as plain Go maps (behind a lock of its own) are interpreted, not modelled;
+// what they hold for the tracked name is read back into the cell state after every method, so that the exploration
+// and the assertions see them like the modelled containers.
+func (d *regDriver) syncMaps() {
+	key := "tok:" + d.key.ID
+	seen := map[*absint.Tok]bool{}
+	var walk func(o *absint.Tok, path string, depth int)
+	walk = func(o *absint.Tok, path string, depth int) {
+		if seen[o] || depth > 3 {
+			return
+		}
+		seen[o] = true
+		var names []string
+		for k := range o.Fields {
+			names = append(names, k)
+		}
+		sort.Strings(names)
+		for _, k := range names {
+			switch v := o.Fields[k].(type) {
+			case *absint.MapVal:
+				cell := "map:" + path + k
+				old := d.st[cell]
+				cur := ""
+				if e, has := v.M[key]; has {
+					if t, isTok := e.(*absint.Tok); isTok {
+						cur = t.ID
+					} else {
+						cur = "1" // a set entry
+					}
+				}
+				if cur == "" {
+					if old != "" && d.failing {
+						if _, ok := d.failDel[cell]; !ok {
+							d.failDel[cell] = d.hist()
+						}
+					}
+					delete(d.st, cell)
+				} else {
+					d.st[cell] = cur
+					if strings.HasPrefix(cur, "P") {
+						d.pubCells[cell] = true
+					}
+				}
+			case *absint.Tok:
+				if v.Class != "cell" && v != d.key && v != d.factoryP && (strings.HasPrefix(v.ID, "alloc") || v.Class == "field") {
+					walk(v, path+k+".", depth+1)
+				}
+			}
+		}
+	}
+	walk(d.recv, "", 0)
 }
 
 // callback is entered when the interpreted create method invokes its factory parameter.
